@@ -52,3 +52,12 @@ Definition dyn_add (d : dyn) (ts : T * St) : dyn :=
   (insert_at i (fst ts) (fst d), insert_at i (snd ts) (snd d)).
 Definition dyn_of (adds : list (T * St)) : dyn := fold_left dyn_add adds ([], []).
 End Dynamics.
+
+(* ---- where explicit times enter (C15) ------------------------------------------------------------
+   TimeDependentSystem.get_propagators with subdiv_limit=None samples the Liouvillian at
+   t + dt/4.0 and t + dt*3.0/4.0 with t = start_time + step*dt *)
+Local Open Scope float_scope.
+Definition prop_times (start dt : float) (step : Z) : float * float :=
+  let t := start + of_Z step * dt in (t + dt / 4, t + dt * 3 / 4).
+Definition all_prop_times (start dt : float) (n : nat) : list float :=
+  flat_map (fun k => let '(a, b) := prop_times start dt (Z.of_nat k) in [a; b]) (seq 0 n).
